@@ -63,6 +63,20 @@ var relatedNameGroups = [][]genName{
 	{{2, []byte("xn--0.example.com")}, {2, []byte("www.example.com")}, {2, []byte("a.xn--ex-8tb.example.com")}},
 	{{2, []byte("xn--a.example.com")}, {2, []byte("xn--.example.com")}, {2, []byte("xn--caf-dma.example.com")}},
 	{{2, []byte(strings.Repeat("z", 64) + ".example.com")}, {2, []byte("a.example.com")}, {2, []byte("m.example.com")}},
+	// names related as strings but not as names: a final label that ends in (starts with, contains) another name's final
+	// label, a name that ends in another name without a label boundary between them
+	{{2, []byte("www.example.net")}, {2, []byte("host.intranet")}},
+	{{2, []byte("www.example.com")}, {2, []byte("host.xcom")}, {2, []byte("host.comx")}},
+	{{2, []byte("www.example.org")}, {2, []byte("www.cyborg")}, {2, []byte("www.example.organic")}},
+	{{2, []byte("example.com")}, {2, []byte("badexample.com")}, {2, []byte("ample.com")}},
+	{{2, []byte("a.co.uk")}, {2, []byte("a.souk")}, {2, []byte("a.uk")}, {2, []byte("a.ukx")}},
+	{{2, []byte("host.internal")}, {2, []byte("www.example.al")}, {2, []byte("www.example.international")}},
+	{{2, []byte("www.example.de")}, {2, []byte("host.inside")}, {2, []byte("www.example.dev")}},
+	// label lengths counted in octets and in characters differ: 31 two-octet characters and two letters are 64 octets
+	// and 33 characters; 21 three-octet characters are 63 octets
+	{{2, []byte(strings.Repeat("\xc3\xa9", 31) + "aa.example.com")}, {2, []byte("www.example.com")}},
+	{{2, []byte(strings.Repeat("\xe2\x82\xac", 21) + ".example.com")}, {2, []byte(strings.Repeat("\xe2\x82\xac", 21) + "a.example.com")}},
+	{{2, []byte(strings.Repeat("a", 63) + ".example.com")}, {2, []byte(strings.Repeat("a", 62) + "\xc3\xa9.example.com")}, {2, []byte(strings.Repeat("a", 61) + "\xc3\xa9.example.com")}},
 }
 
 // removedAndActiveTLDs: a few top-level domains of each status from the delegation table
@@ -200,6 +214,20 @@ func certZoo() []ZooCert {
 			for _, a := range sigAlgs {
 				if mut, err := replaceSigAlg(der, a.der, []byte{0x30, 0x06, 0x02, 0x01, 0x01, 0x02, 0x01, 0x01}); err == nil {
 					add("sigalg", fmt.Sprintf("%d-%s", i, a.name), mut)
+				}
+			}
+		}
+	}
+	// (2b) the two copies of the algorithm identifier disagree, in every combination of short and long encodings
+	if der, _, err := issue(leafTemplate(), nil); err == nil {
+		algs := append(append([]struct {
+			name string
+			der  []byte
+		}{}, sigAlgs[0], sigAlgs[3], sigAlgs[7]), longSigAlgs()...)
+		for _, in := range algs {
+			for _, outer := range algs {
+				if mut, err := replaceSigAlgs(der, in.der, outer.der, nil); err == nil {
+					add("sigalg", fmt.Sprintf("in-%s-out-%s", in.name, outer.name), mut)
 				}
 			}
 		}
@@ -380,6 +408,27 @@ func certZoo() []ZooCert {
 				}
 			}
 		}
+		// the instants around the two dates of a period: the last second before, midnight itself, the first second
+		// after, noon and the last second of the day (a date with day resolution is an instant for the table)
+		for ki, k := range append(append([]string{}, removed...), active...) {
+			if ki%3 != 0 && !thorough {
+				continue
+			}
+			for di, ds := range []string{m[k].DelegationDate, m[k].RemovalDate} {
+				day, err := time.Parse(util.GTLDPeriodDateFormat, ds)
+				if err != nil {
+					continue
+				}
+				for oi, off := range []time.Duration{-time.Second, 0, time.Second, 12 * time.Hour, 24*time.Hour - time.Second, 24 * time.Hour} {
+					t := leafTemplate()
+					t.NotBefore = day.Add(off)
+					t.NotAfter = t.NotBefore.AddDate(0, 3, 0)
+					t.Subject.CommonName = "www.example." + k
+					t.DNSNames = []string{"www.example." + k}
+					issueT("tld", fmt.Sprintf("%s-day%d-%d", k, di, oi), t)
+				}
+			}
+		}
 		for _, nm := range []string{"example.invalidtld", "example.local", "intranet", "example.xn--com-", "example.test", "example.onion"} {
 			t := leafTemplate()
 			t.Subject.CommonName = nm
@@ -413,9 +462,32 @@ func certZoo() []ZooCert {
 	for i, der := range orderSensitiveCerts() {
 		add("order-sensitive", fmt.Sprint(i), der)
 	}
+	// (10) numeric boundaries: serial numbers whose magnitude sits at either end of every octet length the encoder
+	// accepts (a fixed-size buffer, a bit/byte conversion or a sign octet is a boundary of its own)
+	for _, bl := range boundaryBitLens {
+		for k, v := range boundaryValues(bl) {
+			t := leafTemplate()
+			t.SerialNumber = v
+			issueT("serial", fmt.Sprintf("%d-%d", bl, k), t)
+		}
+	}
 	sort.SliceStable(out, func(i, j int) bool { return out[i].Class < out[j].Class })
 	zooCache[key] = out
 	return out
+}
+
+// boundaryBitLens: bit lengths around every octet boundary up to and beyond the 20 octets RFC 5280 allows a serial
+var boundaryBitLens = []int{1, 7, 8, 9, 15, 16, 17, 63, 64, 65, 127, 128, 129, 151, 152, 153, 158, 159, 160, 161, 162, 167, 168, 169, 175, 176, 177, 255, 256, 257}
+
+// boundaryValues: the smallest and the largest integer of the given bit length and one in between
+func boundaryValues(bl int) []*big.Int {
+	lo := new(big.Int).Lsh(big.NewInt(1), uint(bl-1))
+	hi := new(big.Int).Sub(new(big.Int).Lsh(big.NewInt(1), uint(bl)), big.NewInt(1))
+	if bl == 1 {
+		return []*big.Int{lo}
+	}
+	mid := new(big.Int).Add(lo, big.NewInt(1))
+	return []*big.Int{lo, mid, hi}
 }
 
 func zooClasses(z []ZooCert) map[string]int {
@@ -573,6 +645,29 @@ func crlZoo() []CorpusCRL {
 			continue
 		}
 		crlZooCache = append(crlZooCache, CorpusCRL{fmt.Sprintf("zoo-crl-%d", i), der, crl})
+	}
+	// numeric boundaries: entry serials and CRL numbers at either end of every octet length, alone and duplicated
+	for _, bl := range boundaryBitLens {
+		for vi, v := range boundaryValues(bl) {
+			for dup := 0; dup < 2; dup++ {
+				tmpl := &stdx509.RevocationList{Number: big.NewInt(int64(9000 + bl)), ThisUpdate: time.Date(2024, 3, 1, 0, 0, 0, 0, time.UTC), NextUpdate: time.Date(2024, 3, 5, 0, 0, 0, 0, time.UTC)}
+				if dup == 1 && bl <= 159 {
+					tmpl.Number = v
+				}
+				tmpl.RevokedCertificateEntries = []stdx509.RevocationListEntry{{SerialNumber: v, RevocationTime: tmpl.ThisUpdate.Add(-time.Hour)},
+					{SerialNumber: big.NewInt(5), RevocationTime: tmpl.ThisUpdate.Add(-2 * time.Hour)}}
+				if dup == 1 {
+					tmpl.RevokedCertificateEntries = append(tmpl.RevokedCertificateEntries, stdx509.RevocationListEntry{SerialNumber: new(big.Int).Set(v), RevocationTime: tmpl.ThisUpdate.Add(-3 * time.Hour)})
+				}
+				der, err := stdx509.CreateRevocationList(crand.Reader, tmpl, k.caCert, k.caKey)
+				if err != nil {
+					continue
+				}
+				if crl, err := safeParseCRL(der); err == nil {
+					crlZooCache = append(crlZooCache, CorpusCRL{fmt.Sprintf("zoo-crl-serial-%d-%d-%d", bl, vi, dup), der, crl})
+				}
+			}
+		}
 	}
 	// large lists (a size-dependent code path is a code path): 130, 200 and 300 entries in no particular serial order,
 	// the first listed entry with reason 0, the entry with the smallest serial with reason 7, one list with a duplicate
